@@ -134,13 +134,18 @@ class C13(PropCheck):
     chunk = 40
     rule = ('every weight vector is handed over in a generated representation (float64 at a common scale 1e-323..1e300 or '
             '2^-1074..2^1015, subnormals, float32 incl. its extremes, int8..uint64 up to the dtype maximum / around sqrt(max), '
-            'bool, list, tuple); the model receives the numeric values only.  five case kinds: weights (normalize_weights and '
+            'bool, list, tuple); the model receives the numeric values only.  six case kinds: weights (normalize_weights and '
             'compute_ess called on the same numbers in two representations and on exact multiples 2^k of them), quant (weighted_sample_quantile directly and through Sample.sample_quantiles / '
             'sample_means_and_95CIs, several alphas per sample, weights and scale*weights), stat (normalize_weights, compute_ess, '
             'weighted_var 1-D and as a column of a 2-D array), pdf (GMDistribution.pdf/logpdf, component densities from '
-            'scipy.stats.multivariate_normal as oracle table), rvs (GMDistribution.rvs with a recording box constraint). '
+            'scipy.stats.multivariate_normal as oracle table), rvs (GMDistribution.rvs with a recording box constraint; the hard '
+            'stream prescribes the acceptance probability of the constraint, 0.5 down to 1e-4 -- support in the tail of every component, a thin slab, '
+            'a corner -- with sizes 1..20 such that the accept loop needs up to ~10^4 rounds: exactly `size` rows, all inside), '
+            'hist (a caller\'s session of 3-8 pdf / logpdf / rvs calls on the class in which the arrays passed before -- covariance as matrix, '
+            '0-d / (1,) / (1,1) array or scalar, means, weights, points -- are kept, EDITED IN PLACE or replaced between the calls, with calls of other '
+            'dimensions and shapes in between: every call equals the stateless model on the numbers passed at that call, and the library leaves the caller\'s arrays unchanged). '
             'non-trivial = quant case with >=2 rows that has a tie in x, a zero weight or an alpha on a cumulative-weight boundary; '
-            'stat case with >=2 positive weights; weights case with >=2 positive weights and >=2 calls; pdf case with >=2 components; rvs case that needed >=2 trials; distinct by input')
+            'stat case with >=2 positive weights; weights case with >=2 positive weights and >=2 calls; pdf case with >=2 components; rvs case that needed >=2 trials; hist case with >=2 calls in which an array object passed before is passed again; distinct by input')
     trusted = ('scipy.stats.multivariate_normal.pdf as the normal-density oracle N(x; m, C) (table supplied per case); numpy.log as ln',
                'numpy.argsort returns a permutation that sorts x (checked per case by is_sorting_perm)',
                'binary64 vs Q: exact comparison on dyadic inputs (integer weights with power-of-two sum, dyadic alpha), '
@@ -589,6 +594,269 @@ class C13(PropCheck):
         return dict(kind='rvs', d=d, means=means, cov=cov, ws=ws, wrep=wrep, size=size, box=box,
                     outside=r.choice(['-inf', 'nan', '+inf']), seed=r.randrange(2 ** 31))
 
+    # -- rvs under hard constraints (wave 3) ---------------------------------------------------------------
+    ACCEPT_TARGETS = (0.5, 0.2, 0.05, 0.02, 0.01, 5e-3, 3e-3, 2e-3, 1e-3, 1e-3, 5e-4, 3e-4, 1e-4)
+
+    @staticmethod
+    def _box_acceptance(means, sig, wn, box):
+        """exact acceptance probability of an axis-parallel box under sum_i wn_i N(m_i, C) when either C is diagonal
+        (sig = sqrt of its diagonal) or only one coordinate is really constrained (marginal of that coordinate)."""
+        tail = lambda z: 0.5 * math.erfc(z / math.sqrt(2.0))
+        p = 0.0
+        for m, w in zip(means, wn):
+            q = w
+            for j, (lo, hi) in enumerate(box):
+                q *= max(0.0, tail((lo - m[j]) / sig[j]) - tail((hi - m[j]) / sig[j]))
+            p += q
+        return p
+
+    def gen_rvs_hard(self):
+        """a constraint of prescribed acceptance probability (0.5 down to 1e-4) and a size 1..20 such that the unchanged
+        accept loop needs about H(size)/acceptance rounds -- up to ~10^4, far more than any plausible round limit."""
+        r = self.rng
+        d = r.choice([1, 1, 2, 2, 3])
+        k = r.randint(1, 3) if d == 1 else r.randint(2, 3)
+        means = [[round(r.uniform(-1.5, 1.5), 2) for _ in range(d)] for _ in range(k)]
+        style = r.choice(['tail', 'tail', 'narrow', 'corner']) if d > 1 else r.choice(['tail', 'tail', 'narrow'])
+        if d == 1 or style == 'corner' or r.random() < 0.5:
+            c = r.choice([1.0, 0.5, 2.0, round(r.uniform(0.3, 2), 2)])
+            cov = c if (d == 1 or r.random() < 0.6) else (np.eye(d) * c).tolist()
+            sig = [math.sqrt(c)] * d
+        else:       # full matrix: one constrained coordinate, whose marginal is N(m_j, C_jj)
+            a = np.array([[r.uniform(-1, 1) for _ in range(d)] for _ in range(d)])
+            cm = a @ a.T + np.eye(d) * r.uniform(0.3, 1.0)
+            cov = cm.tolist()
+            sig = [math.sqrt(cm[j, j]) for j in range(d)]
+        ws = r.choice([None, [float(r.randint(1, 5)) for _ in range(k)], [r.choice([0.0, 1.0, 1.0]) * r.uniform(0.05, 1) for _ in range(k)]])
+        if ws is not None and sum(ws) <= 0:
+            ws[r.randrange(k)] = 1.0
+        wn = [1.0 / k] * k if ws is None else [v / sum(ws) for v in ws]
+        BIG = 1e9
+        j0 = r.randrange(d)
+        width = r.choice([0.5, 1.0, 2.0, BIG])
+        top = max(m[j0] for m in means)
+        ctr = means[r.randrange(k)]
+
+        def box_of(t):
+            if style == 'tail':         # the support of coordinate j0 lies in the upper tail of every component
+                return [[top + t, min(BIG, top + t + width)] if j == j0 else [-BIG, BIG] for j in range(d)]
+            if style == 'narrow':       # a thin slab around a component mean
+                return [[ctr[j] - t, ctr[j] + t] if j == j0 else [-BIG, BIG] for j in range(d)]
+            return [[ctr[j] + t * sig[j], BIG] for j in range(d)]      # corner: every coordinate above a threshold
+        target = r.choice(self.ACCEPT_TARGETS)
+        lo, hi = (0.0, 12.0 * max(sig) + 4.0) if style != 'narrow' else (1e-9, 12.0 * max(sig) + 4.0)
+        incr = style == 'narrow'
+        for _ in range(80):
+            mid = 0.5 * (lo + hi)
+            pm = self._box_acceptance(means, sig, wn, box_of(mid))
+            if (pm < target) == incr:
+                lo = mid
+            else:
+                hi = mid
+        box = box_of(0.5 * (lo + hi))
+        p = self._box_acceptance(means, sig, wn, box)
+        if not (0.3 * target <= p <= 1.0):      # e.g. the target cannot be reached (acceptance at t = 0 already below it)
+            p = max(p, 1e-12)
+        budget = 10500.0 if p < 2e-4 else 6000.0 if p < 4e-4 else 3000.0      # rounds; about 0.3 ms each
+        h, smax = 0.0, 0
+        for sz in range(1, 21):
+            h += 1.0 / sz
+            if h / p <= budget:
+                smax = sz
+        if smax == 0:           # acceptance below the reachable range: keep the run bounded by an easier constraint
+            self.bump('rvs hard: target unreachable, skipped')
+            return self.gen_rvs()
+        size = r.choice([smax, r.randint(1, smax), r.randint(1, smax)])
+        expect = sum(1.0 / i for i in range(1, size + 1)) / p
+        self.bump('rvs hard acceptance~%s' % ('%.0e' % p if p < 0.1 else '%.1f' % p))
+        self.bump('rvs hard style=' + style)
+        self.bump('rvs hard size=%s' % (size if size <= 3 else '4-8' if size <= 8 else '9-20'))
+        self.bump('rvs hard expected rounds %s' % ('<100' if expect < 100 else '100-1000' if expect < 1000 else '1000-4000' if expect < 4000 else '>4000'))
+        self.bump('rvs d=%d' % d)
+        return dict(kind='rvs', d=d, means=means, cov=cov, ws=ws, wrep=None, size=size, box=box, hard=True,
+                    acceptance=p, max_rounds=int(max(2000, 8 * expect)),
+                    outside=r.choice(['-inf', '-inf', 'nan', '+inf']), seed=r.randrange(2 ** 31))
+
+    # -- histories of calls on the class (wave 3) ------------------------------------------------------------
+    @staticmethod
+    def _pd_ok(c):
+        ev = np.linalg.eigvalsh(np.array(c, dtype=float))
+        return ev[0] >= 0.1 and ev[-1] <= 30.0
+
+    def _new_cov(self, d, form):
+        r = self.rng
+        if form != 'matrix':
+            return r.choice([1.0, 0.25, 2.5, round(r.uniform(0.15, 4), 3)])
+        while True:
+            a = np.array([[r.uniform(-1, 1) for _ in range(d)] for _ in range(d)])
+            c = (a @ a.T + np.eye(d) * r.uniform(0.2, 1.0))
+            c = ((c + c.T) / 2).tolist()
+            if self._pd_ok(c):
+                return c
+
+    def _edit_cov(self, cur, d, form):
+        """the numbers a caller would leave in its covariance array after an in-place edit."""
+        r = self.rng
+        how = r.choice(['scale', 'scale', 'offdiag', 'diag', 'new'])
+        if form != 'matrix':
+            if how in ('scale', 'offdiag', 'diag'):
+                f = r.choice([0.25, 0.5, 2.0, 4.0])
+                f = f if 0.1 <= cur * f <= 30 else 1.0 / f
+                return 'scale', cur * f
+            return 'new', self._new_cov(d, form)
+        c = np.array(cur, dtype=float)
+        if how == 'scale':
+            f = r.choice([0.25, 0.5, 2.0, 4.0])
+            if not self._pd_ok(c * f):
+                f = 1.0 / f
+            if self._pd_ok(c * f):
+                return how, (c * f).tolist()
+        elif how == 'offdiag':
+            for _ in range(6):
+                i, j = r.sample(range(d), 2)
+                c2 = c.copy()
+                c2[i, j] = c2[j, i] = r.uniform(-0.9, 0.9) * math.sqrt(c[i, i] * c[j, j])
+                if self._pd_ok(c2):
+                    return how, c2.tolist()
+        elif how == 'diag':
+            c2 = c.copy()
+            i = r.randrange(d)
+            c2[i, i] = c2[i, i] * r.choice([1.5, 2.0, 3.0]) + r.choice([0.0, 0.5])
+            if self._pd_ok(c2):
+                return how, c2.tolist()
+        return 'new', self._new_cov(d, form)
+
+    def gen_hist(self):
+        """a caller's session with the class-level API: 3-8 calls of pdf / logpdf / rvs; between the calls the caller
+        keeps, EDITS IN PLACE or replaces the arrays (cov, means, weights, x) it passed before; calls of other
+        dimensions / component counts in between.  The case records, per call, the numbers passed and, per argument,
+        whether the array object of the same role and shape is re-used ('reuse': the numbers are written into it in place)
+        or a new object is passed ('fresh')."""
+        r = self.rng
+        nctx = r.choice([1, 1, 2, 2, 3])
+        d0 = r.choice([1, 2, 2, 3])
+        ctxs = []
+        for c in range(nctx):
+            d = d0 if (c == 0 or r.random() < 0.5) else r.choice([1, 2, 3])
+            ctxs.append(dict(d=d, k=r.randint(1, 4) if d == 1 else r.randint(2, 4), npts=r.randint(1, 3),
+                             form=r.choice(['scalar', 'arr0', 'arr1', 'arr11', 'arr1'] if d == 1 else ['matrix', 'matrix', 'matrix', 'arr0', 'scalar'])))
+        cur = {}        # label -> numbers currently held by the caller's array of that role and shape
+        steps = []
+        ctx = ctxs[0]
+        self.bump('hist contexts=%d' % nctx)
+        for t in range(r.randint(3, 8)):
+            if nctx > 1 and t > 0 and r.random() < 0.3:
+                new = r.choice([c for c in ctxs if c is not ctx])
+                self.bump('hist switch to %s' % ('another dimension' if new['d'] != ctx['d'] else 'the same dimension, other shapes'))
+                ctx = new
+            d, k, npts = ctx['d'], ctx['k'], ctx['npts']
+            form = ctx['form']
+            if r.random() < 0.12:      # the caller passes its covariance in another form for once
+                form = r.choice(['scalar', 'arr0', 'arr1', 'arr11'] if d == 1 else ['matrix', 'arr0', 'scalar'])
+            call = r.choice(['pdf', 'pdf', 'pdf', 'logpdf', 'logpdf', 'rvs'])
+            step = dict(call=call, d=d)
+
+            def arg(role, label, fresh_values, edit):
+                """decide what the caller does with its array `label` before this call."""
+                if label not in cur:
+                    cur[label] = fresh_values()
+                    what = 'first use'
+                    mode = 'reuse'
+                else:
+                    what = r.choice(['same', 'same', 'same', 'inplace', 'inplace', 'inplace', 'inplace', 'fresh', 'fresh copy'])
+                    mode = 'reuse'
+                    if what == 'inplace':
+                        how, vals = edit(cur[label])
+                        cur[label] = vals
+                        what = 'inplace ' + how
+                    elif what == 'fresh':       # another object with other numbers; the old object keeps its numbers
+                        self.bump('hist %s: %s' % (role, what))
+                        return dict(values=fresh_values(), mode='fresh')
+                    elif what == 'fresh copy':
+                        mode = 'fresh'
+                self.bump('hist %s: %s' % (role, what))
+                return dict(values=cur[label], mode=mode)
+
+            # covariance
+            if form == 'scalar':
+                lab = 'cov/scalar/%d' % d
+                if lab in cur and r.random() < 0.5:
+                    _, cur[lab] = self._edit_cov(cur[lab], d, form)
+                elif lab not in cur:
+                    cur[lab] = self._new_cov(d, form)
+                step['cov'] = dict(form=form, values=cur[lab], mode='fresh')
+                self.bump('hist cov: python scalar')
+            else:
+                lab = 'cov/%s/%d' % (form, d if form == 'matrix' else 0)
+                step['cov'] = dict(form=form, **arg('cov', lab, lambda: self._new_cov(d, form), lambda c: self._edit_cov(c, d, form)))
+            self.bump('hist cov form=' + form)
+            # means
+            newmeans = lambda: [[round(r.uniform(-2, 2), 3) for _ in range(d)] for _ in range(k)]
+
+            def edit_means(m):
+                how = r.choice(['shift', 'one', 'new'])
+                if how == 'shift':
+                    dl = [round(r.uniform(-0.5, 0.5), 3) for _ in range(d)]
+                    return how, [[max(-2.5, min(2.5, v + e)) for v, e in zip(row, dl)] for row in m]
+                if how == 'one':
+                    m = [list(row) for row in m]
+                    m[r.randrange(k)] = [round(r.uniform(-2, 2), 3) for _ in range(d)]
+                    return how, m
+                return how, newmeans()
+            step['means'] = arg('means', 'means/%d/%d' % (d, k), newmeans, edit_means)
+            # weights
+            if r.random() < 0.25:
+                step['ws'] = None
+                self.bump('hist weights: None')
+            else:
+                def neww():
+                    w = r.choice([[float(r.randint(1, 9)) for _ in range(k)], [r.uniform(0.01, 5) for _ in range(k)],
+                                  [r.choice([0.0, 1.0, 1.0]) * r.uniform(0.05, 1) for _ in range(k)]])
+                    if sum(w) <= 0:
+                        w[r.randrange(k)] = 1.0
+                    return w
+
+                def edit_w(w):
+                    how = r.choice(['scale', 'zero', 'one', 'new'])
+                    w = list(w)
+                    if how == 'scale':
+                        f = r.choice([0.5, 2.0, 0.1, 10.0, 1.0 / sum(w)])
+                        return how, [v * f for v in w]
+                    if how == 'zero' and sum(1 for v in w if v > 0) >= 2:
+                        w[r.choice([i for i, v in enumerate(w) if v > 0])] = 0.0
+                        return how, w
+                    if how == 'one':
+                        w[r.randrange(k)] = r.uniform(0.05, 5)
+                        return how, w
+                    return 'new', neww()
+                step['ws'] = arg('weights', 'w/%d' % k, neww, edit_w)
+            # points / sampler arguments
+            if call == 'rvs':
+                size = r.choice([1, 1, 2, 3, 5])
+                tight = r.choice(['none', 'wide', 'medium'])
+                c = step['means']['values'][r.randrange(k)]
+                half = {'none': None, 'wide': 50.0, 'medium': 1.5}[tight]
+                step.update(size=size, seed=r.randrange(2 ** 31), outside=r.choice(['-inf', 'nan', '+inf']),
+                            box=None if half is None else [[c[j] - half * r.uniform(0.5, 1), c[j] + half * r.uniform(0.5, 1)] for j in range(d)])
+            else:
+                newx = lambda: [[round(r.uniform(-3, 3), 3) for _ in range(d)] for _ in range(npts)]
+
+                def edit_x(x):
+                    how = r.choice(['shift', 'at a mean', 'new'])
+                    if how == 'shift':
+                        dl = [round(r.uniform(-0.5, 0.5), 3) for _ in range(d)]
+                        return how, [[max(-3.5, min(3.5, v + e)) for v, e in zip(row, dl)] for row in x]
+                    if how == 'at a mean':
+                        x = [list(row) for row in x]
+                        x[r.randrange(npts)] = list(step['means']['values'][r.randrange(k)])
+                        return how, x
+                    return how, newx()
+                step['x'] = arg('x', 'x/%d/%d' % (d, npts), newx, edit_x)
+            self.bump('hist call=%s d=%d' % (call, d))
+            steps.append(json.loads(json.dumps(step)))     # a snapshot: later edits must not reach earlier steps
+        self.bump('hist calls=%d' % len(steps))
+        return dict(kind='hist', steps=steps)
+
     def gen_gm1(self):
         """exactly one component in dimension d >= 2 (means of shape (1, d))."""
         r = self.rng
@@ -623,6 +891,10 @@ class C13(PropCheck):
             yield self.gen_rvs()
         for _ in range(6 * f):
             yield self.gen_gm1()
+        for _ in range(60 * f):
+            yield self.gen_hist()
+        for _ in range(32 * (1 if f == 1 else 8)):
+            yield self.gen_rvs_hard()
 
     # ------------------------------------------------------------------------------------------
     # implementation drivers
@@ -737,39 +1009,130 @@ class C13(PropCheck):
             out['pdf_single'] = float(p0) if np.ndim(p0) == 0 else 'shape %s' % (np.shape(p0),)
         return out
 
-    def impl_rvs(self, case):
+    def _run_rvs(self, means, cov, w, d, size, box, outside, seed, max_rounds=400, condense=False):
+        """one call of GMDistribution.rvs with a recording box constraint.  `condense`: batches in which no row was
+        accepted are counted but not kept (they leave the state of the accept loop unchanged, C13_rvs_rejected_batch);
+        the kept batches are a proposal stream on which the model makes the same decisions."""
         from elfi.methods.utils import GMDistribution
-        means, _, cov, w = self._shape_args(case)
-        d = case['d']
-        box = case['box']
-        bad = {'-inf': -np.inf, 'nan': np.nan, '+inf': np.inf}[case['outside']]
+        bad = {'-inf': -np.inf, 'nan': np.nan, '+inf': np.inf}[outside]
         batches = []
+        count = dict(rounds=0, candidates=0)
+
+        t_start = time.time()
 
         def prior_logpdf(x):
-            if len(batches) >= 400:
+            # out of fuel: far more rounds than the constraint needs (or, on an overloaded machine, a minute of them)
+            if count['rounds'] >= max_rounds or (count['rounds'] % 256 == 255 and time.time() - t_start > 60):
                 raise Stop('too many trials')
             x = np.asarray(x)
             rows_ = x.reshape(len(x), -1)
-            batches.append([[float(v) for v in row] for row in rows_])
+            count['rounds'] += 1
+            count['candidates'] += len(rows_)
+            if box is None:
+                inside = np.ones(len(rows_), dtype=bool)
+            else:
+                inside = np.all([(rows_[:, j] >= box[j][0]) & (rows_[:, j] <= box[j][1]) for j in range(d)], axis=0)
+            if not condense or inside.any():
+                batches.append([[float(v) for v in row] for row in rows_])
             if box is None:
                 return np.zeros(len(x))
-            inside = np.all([(rows_[:, j] >= box[j][0]) & (rows_[:, j] <= box[j][1]) for j in range(d)], axis=0)
             return np.where(inside, -1.25, bad)
 
         try:
-            o = GMDistribution.rvs(means, cov, w, size=case['size'], prior_logpdf=prior_logpdf,
-                                   random_state=np.random.RandomState(case['seed']))
+            o = GMDistribution.rvs(means, cov, w, size=size, prior_logpdf=prior_logpdf,
+                                   random_state=np.random.RandomState(seed))
         except Stop:
-            self.bump('rvs gave up after 400 trials (excluded: out of fuel)')
-            return dict(out=None, batches=batches[:3], gave_up=True)
+            self.bump('rvs gave up after %s trials (excluded: out of fuel)' % (400 if max_rounds == 400 else '8x the expected number of'))
+            return dict(out=None, batches=batches[:3], gave_up=True, rounds=count['rounds'])
         except Exception as e:      # a crash on a valid request is a failure of the property, with a concrete replay
-            return dict(out=None, batches=batches[:3], crashed='%s: %s' % (type(e).__name__, str(e)[:200]))
+            return dict(out=None, batches=batches[:3], crashed='%s: %s' % (type(e).__name__, str(e)[:200]), rounds=count['rounds'])
         o = np.asarray(o)
-        out = dict(out=[[float(v) for v in np.atleast_1d(row)] for row in o], shape=list(o.shape), batches=batches)
+        out = dict(out=[[float(v) for v in np.atleast_1d(row)] for row in o], shape=list(o.shape), batches=batches,
+                   rounds=count['rounds'], candidates=count['candidates'])
         if box is None:
-            o2 = GMDistribution.rvs(means, cov, w, size=case['size'], random_state=np.random.RandomState(case['seed']))
+            o2 = GMDistribution.rvs(means, cov, w, size=size, random_state=np.random.RandomState(seed))
             out['same_without_constraint'] = bool(np.array_equal(np.asarray(o2), o))
         return out
+
+    def impl_rvs(self, case):
+        means, _, cov, w = self._shape_args(case)
+        hard = bool(case.get('hard'))
+        out = self._run_rvs(means, cov, w, case['d'], case['size'], case['box'], case['outside'], case['seed'],
+                            max_rounds=case.get('max_rounds', 400), condense=hard)
+        if hard and out.get('rounds') is not None and not out.get('gave_up'):
+            n = out['rounds']
+            self.bump('rvs hard rounds used %s' % ('<100' if n < 100 else '100-1000' if n < 1000 else '1000-4000' if n < 4000 else '>4000'))
+        return out
+
+    # -- histories of calls ------------------------------------------------------------------------------------
+    @staticmethod
+    def _hist_build(role, spec, d):
+        """a NEW object holding the numbers of `spec` in the shape the caller uses for `role`."""
+        v = spec['values']
+        if role == 'cov':
+            form = spec['form']
+            if form == 'scalar':
+                return float(v)
+            if form == 'matrix':
+                return np.array(v, dtype=float)
+            return np.array(float(v)).reshape({'arr0': (), 'arr1': (1,), 'arr11': (1, 1)}[form])
+        a = np.array(v, dtype=float)
+        if role in ('means', 'x') and d == 1:
+            a = a[:, 0]
+        return a
+
+    def impl_hist(self, case):
+        import scipy.stats as ss
+        from elfi.methods.utils import GMDistribution
+        pool = {}       # the caller's long-lived arrays, by role and shape
+        outs = []
+        for st in case['steps']:
+            d = st['d']
+            args, held = {}, {}
+            for role in ('cov', 'means', 'ws', 'x'):
+                spec = st.get(role)
+                if spec is None:
+                    args[role] = None
+                    continue
+                new = self._hist_build(role, spec, d)
+                key = (role, spec.get('form'), np.shape(new))
+                if spec['mode'] == 'reuse' and isinstance(new, np.ndarray):
+                    if key in pool:
+                        pool[key][...] = new        # the caller edits its array in place
+                    else:
+                        pool[key] = new
+                    new = pool[key]
+                args[role] = new
+                held[role] = np.array(new, dtype=float, copy=True)
+            # the component densities for the numbers of THIS call, from objects nobody else ever sees
+            means_c = np.array(st['means']['values'], dtype=float)
+            cv = st['cov']['values']
+            cov_c = np.array(cv, dtype=float) if st['cov']['form'] == 'matrix' else float(cv) * np.eye(d)
+            o = dict(call=st['call'])
+            with np.errstate(all='ignore'):
+                if st['call'] == 'rvs':
+                    o.update(self._run_rvs(args['means'], args['cov'], args['ws'], d, st['size'], st['box'], st['outside'], st['seed']))
+                else:
+                    pts_c = np.array(st['x']['values'], dtype=float)
+                    o['dens'] = [[float(ss.multivariate_normal.pdf(x, mean=m, cov=cov_c)) for m in means_c] for x in pts_c]
+                    f = GMDistribution.pdf if st['call'] == 'pdf' else GMDistribution.logpdf
+                    v, e = self._call(f, args['x'], args['means'], args['cov'], args['ws'])
+                    o['err'] = e
+                    if e is None:
+                        v = np.asarray(v)
+                        o['shape'] = list(v.shape)
+                        vals = [float(t) for t in np.atleast_1d(v)]
+                        if st['call'] == 'pdf':
+                            o['pdf'] = vals if all(math.isfinite(t) for t in vals) else None
+                            o['raw'] = vals
+                        else:
+                            o['logpdf'] = vals
+                            ex = [float(np.exp(t)) for t in vals]
+                            o['exp'] = ex if all(math.isfinite(t) for t in ex) else None
+            o['mutated'] = [role for role, h in held.items()
+                            if not np.array_equal(np.asarray(args[role], dtype=float), h)]
+            outs.append(o)
+        return dict(steps=outs)
 
     def impl_gm1(self, case):
         from elfi.methods.utils import GMDistribution
@@ -856,6 +1219,47 @@ class C13(PropCheck):
                 if out['rvs_shape_' + name] != [case['size'], case['d']]:
                     bad.append(('gm_single_component', 'one component, d=%d, %s cov: rvs(size=%d) shape %r, expected %r'
                                 % (case['d'], name, case['size'], out['rvs_shape_' + name], [case['size'], case['d']])))
+        elif k == 'hist':
+            import scipy.stats as ss
+            from scipy.special import logsumexp
+            for t, (st, o) in enumerate(zip(case['steps'], out['steps'])):
+                where = 'call %d of %d (%s, d=%d)' % (t + 1, len(case['steps']), st['call'], st['d'])
+                if o['mutated']:
+                    bad.append(('hist_inputs_not_mutated', '%s: the library modified the caller\'s %s' % (where, '/'.join(o['mutated']))))
+                if st['call'] == 'rvs':
+                    if o.get('crashed'):
+                        bad.append(('rvs_completes', '%s: rvs(size=%d) raised %s' % (where, st['size'], o['crashed'])))
+                    if o['out'] is not None:
+                        want = [st['size']] + ([] if st['d'] == 1 else [st['d']])
+                        if o['shape'] != want:
+                            bad.append(('rvs_shape', '%s: shape %r, expected %r' % (where, o['shape'], want)))
+                        if o.get('same_without_constraint') is False:
+                            bad.append(('rvs_no_constraint', '%s: prior_logpdf=None differs from an always-finite prior_logpdf' % where))
+                    continue
+                if o['err'] is not None:
+                    bad.append(('hist_call_completes', '%s raised %s on valid arguments' % (where, o['err'])))
+                    continue
+                k_ = len(st['means']['values'])
+                if st['ws'] is None:
+                    wn = [1.0 / k_] * k_
+                else:
+                    tot = sum(F(v) for v in st['ws']['values'])
+                    wn = [float(F(v) / tot) for v in st['ws']['values']]
+                if o['shape'] != [len(o['dens'])]:
+                    bad.append(('hist_shape', '%s: result shape %r for %d points' % (where, o['shape'], len(o['dens']))))
+                    continue
+                for j, dens in enumerate(o['dens']):
+                    ref = sum(wi * di for wi, di in zip(wn, dens))
+                    if st['call'] == 'pdf':
+                        if not math.isclose(ref, o['raw'][j], rel_tol=1e-10, abs_tol=1e-300):
+                            bad.append(('hist_pdf', '%s: pdf[%d]=%r but the weighted sum of the component densities for the '
+                                        'numbers passed at this call is %r' % (where, j, o['raw'][j], ref)))
+                    else:
+                        lref = float(np.log(ref)) if ref > 0 else -math.inf
+                        got = o['logpdf'][j]
+                        if not (got == lref or math.isclose(lref, got, rel_tol=1e-9, abs_tol=1e-9)):
+                            bad.append(('hist_logpdf', '%s: logpdf[%d]=%r but log of the weighted sum of the component densities '
+                                        'for the numbers passed at this call is %r' % (where, j, got, lref)))
         elif k == 'rvs':
             if out.get('crashed'):
                 bad.append(('rvs_completes', 'rvs(size=%d) raised %s' % (case['size'], out['crashed'])))
@@ -900,7 +1304,12 @@ class C13(PropCheck):
             if len(case['means']) < 2:
                 return None
         elif k == 'rvs':
-            if out['out'] is None or len(out['batches']) < 2:
+            if out['out'] is None or out.get('rounds', len(out['batches'])) < 2:
+                return None
+        elif k == 'hist':
+            # at least two calls, and an array object the caller passed before is passed again
+            if len(case['steps']) < 2 or not any(sp is not None and isinstance(sp, dict) and sp.get('mode') == 'reuse'
+                                                 for st in case['steps'][1:] for sp in (st.get('cov'), st.get('means'), st.get('ws'), st.get('x'))):
                 return None
         return json.dumps(case, sort_keys=True)
 
@@ -940,12 +1349,29 @@ class C13(PropCheck):
         if k == 'pdf':
             return 'CPdf %s %s %s %s' % (clist([self._ql(d) for d in out['dens']]), self._qlo(case['ws']), cq(tol_of(case.get('wrep'))),
                                          self._qlo(out['pdf']))
+        mat = lambda m: clist([self._ql(row) for row in m])
+        boxq = lambda bx: copt(bx, lambda b: clist(['(%s, %s)' % (cq(lo), cq(hi)) for lo, hi in b]))
         if k == 'rvs':
             if out['out'] is None:
                 return None
-            mat = lambda m: clist([self._ql(row) for row in m])
-            box = copt(case['box'], lambda b: clist(['(%s, %s)' % (cq(lo), cq(hi)) for lo, hi in b]))
-            return 'CRvs %s %s %s (Some %s)' % (cnat(case['size']), box, clist([mat(b) for b in out['batches']]), mat(out['out']))
+            return 'CRvs %s %s %s (Some %s)' % (cnat(case['size']), boxq(case['box']), clist([mat(b) for b in out['batches']]), mat(out['out']))
+        if k == 'hist':
+            calls = []
+            for st, o in zip(case['steps'], out['steps']):
+                if st['call'] == 'rvs':
+                    if o['out'] is None:
+                        if o.get('gave_up'):
+                            continue        # out of fuel (excluded, counted in the histogram)
+                        calls.append('GRvs %s %s [] None' % (cnat(st['size']), boxq(st['box'])))
+                    else:
+                        calls.append('GRvs %s %s %s (Some %s)' % (cnat(st['size']), boxq(st['box']),
+                                                                  clist([mat(b) for b in o['batches']]), mat(o['out'])))
+                else:
+                    ws = None if st['ws'] is None else st['ws']['values']
+                    res = o.get('pdf') if st['call'] == 'pdf' else o.get('exp')
+                    calls.append('%s %s %s %s %s' % ('GPdf' if st['call'] == 'pdf' else 'GLogpdf', clist([self._ql(dn) for dn in o['dens']]),
+                                                    self._qlo(ws), cq(TOL), self._qlo(res)))
+            return 'CHist %s' % clist(calls)
         return None
 
 
